@@ -10,6 +10,7 @@
 -/
 import IcingaProofs.C11.Lemmas
 import IcingaProofs.C11.Family
+import IcingaProofs.C11.Compass
 namespace Icinga.C11
 
 /-! ## Part 1 — one node -/
@@ -18,31 +19,19 @@ section Node
 variable {T : Topo} {self : Ep} {o : Origin} {oz : Option Zone} {log : Bool} {fuel : Nat} {e : Ep}
 
 /-- **reachable_only.**  A message is only handed to a connected endpoint, never to the node itself. -/
-theorem reachable_only (h : e ∈ (relayFuel fuel T self o oz log).sent) : e ≠ self ∧ T.conn self e = true := by
-  obtain ⟨cz, r, _, hel⟩ := sent_eligible h
-  unfold eligible at hel
-  simp only [Bool.and_eq_true, bne_iff_ne, ne_eq] at hel
-  exact ⟨hel.1.1, hel.1.2⟩
+theorem reachable_only (h : e ∈ (relayFuel fuel T self o oz log).sent) : e ≠ self ∧ T.conn self e = true :=
+  sent_reachable h
 
 /-- **no_echo.**  Never back to the endpoint the message came from, never into the zone it came from. -/
 theorem no_echo (hz : ∀ z e, e ∈ T.eps self z → T.zoneOf e = z) (h : e ∈ (relayFuel fuel T self o oz log).sent) :
-    o.client ≠ some e ∧ o.fromZone ≠ some (T.zoneOf e) := by
-  obtain ⟨cz, r, hmem, hel⟩ := sent_eligible h
-  rw [hz cz e hmem]
-  unfold eligible blocked at hel
-  simp only [Bool.and_eq_true, Bool.not_eq_true', Bool.or_eq_false_iff, beq_eq_false_iff_ne, ne_eq] at hel
-  exact ⟨hel.2.1.1.2, hel.2.1.2⟩
+    o.client ≠ some e ∧ o.fromZone ≠ some (T.zoneOf e) :=
+  sent_no_echo hz h
 
 /-- **only_master_crosses.**  A node that is not the zone master hands the message to nobody but the master (so it
     never crosses a zone border: the master is a member of its own zone). -/
 theorem only_master_crosses (hm : getMaster T self ≠ some self) (h : e ∈ (relayFuel fuel T self o oz log).sent) :
-    getMaster T self = some e := by
-  obtain ⟨cz, r, _, hel⟩ := sent_eligible h
-  unfold eligible blocked at hel
-  simp only [Bool.and_eq_true, Bool.not_eq_true', Bool.or_eq_false_iff, Bool.and_eq_false_imp, bne_iff_ne, ne_eq] at hel
-  have := hel.2.2
-  simp [hm] at this
-  exact this
+    getMaster T self = some e :=
+  sent_master hm h
 
 /-- **only_entitled.**  Every send goes to an endpoint of the object's zone or one of its ancestors; for an object
     of a global zone: of the node's own zone or a direct child of it. -/
@@ -62,11 +51,8 @@ theorem only_entitled (hd : Detached T) (hz : ∀ z e, e ∈ T.eps self z → T.
 /-- **single_entry.**  A foreign zone is entered through at most one endpoint. -/
 theorem single_entry (hd : Detached T) (hz : ∀ z e, e ∈ T.eps self z → T.zoneOf e = z) {a b : Ep}
     (ha : a ∈ (relayFuel fuel T self o oz log).sent) (hb : b ∈ (relayFuel fuel T self o oz log).sent)
-    (hab : T.zoneOf a = T.zoneOf b) (hf : T.zoneOf a ≠ T.zoneOf self) : a = b := by
-  obtain ⟨ha', _⟩ := sent_zone_of hd hz ha
-  obtain ⟨hb', _⟩ := sent_zone_of hd hz hb
-  rw [← hab] at hb'
-  exact eq_of_mem_length_le_one (relayZone_foreign_single T self o _ _ hf) ha' hb'
+    (hab : T.zoneOf a = T.zoneOf b) (hf : T.zoneOf a ≠ T.zoneOf self) : a = b :=
+  sent_single_entry hd hz ha hb hab hf
 
 /-- **logged_not_dropped** (object of an ordinary zone).  `z` is the object's zone or an ancestor (within the walk),
     it is the node's own zone, its parent or a direct child, the node has somebody to send to there and reaches none
@@ -105,45 +91,8 @@ theorem logged_not_dropped_global (hd : Detached T) {z : Zone}
 theorem origin_zone_copied : (relayFuel fuel T self o oz log).originZone = o.fromZone := rfl
 
 /-- **no_duplicate_send.**  In a well-formed configuration no endpoint gets the message twice from one relay step. -/
-theorem no_duplicate_send (wf : WF T self) : (relayFuel fuel T self o oz log).sent.Nodup := by
-  obtain ⟨rank, hr⟩ := wf.acyclic
-  rw [relayFuel_sent_eq]
-  have hkey : ∀ (cz : Zone), ∀ b ∈ (relayZone T self o (getMaster T self) cz).sent, T.zoneOf b = cz :=
-    fun cz b hb => wf.zone_of_mem cz b (relayZone_sent_eligible T self o _ cz hb).1
-  by_cases hg : T.isGlobal (targetZone T self oz) = true
-  · rw [allParents_parent_none T fuel _ (wf.global_no_parent _ hg)]
-    simp only [List.flatMap_cons, List.flatMap_nil, List.append_nil]
-    rw [relayOne_sent_global _ hg]
-    apply nodup_flatMap_key _ T.zoneOf
-    · rw [List.nodup_cons]
-      refine ⟨?_, wf.zones_nodup.filter _⟩
-      intro h
-      have := (List.mem_filter.mp h).2
-      simp only [beq_iff_eq] at this
-      exact Nat.lt_irrefl _ (hr _ _ this)
-    · intro cz _
-      exact relayZone_sent_nodup _ cz (wf.eps_nodup cz)
-    · intro cz _ b hb
-      exact hkey cz b hb
-  · have hg' : T.isGlobal (targetZone T self oz) = false := by simpa using hg
-    have hng : ∀ z ∈ targetZone T self oz :: allParents T fuel (targetZone T self oz), T.isGlobal z = false := by
-      intro z hz
-      rcases List.mem_cons.mp hz with rfl | hz'
-      · exact hg'
-      · obtain ⟨c, hc⟩ := mem_allParents_is_parent T fuel _ z hz'
-        exact wf.parent_not_global c z hc
-    apply nodup_flatMap_key _ T.zoneOf
-    · exact chain_nodup hr fuel _
-    · intro z hz
-      rw [relayOne_sent_nonglobal _ (hng z hz)]
-      split
-      · exact relayZone_sent_nodup _ z (wf.eps_nodup z)
-      · exact List.nodup_nil
-    · intro z hz b hb
-      rw [relayOne_sent_nonglobal _ (hng z hz)] at hb
-      split at hb
-      · exact hkey z b hb
-      · simp at hb
+theorem no_duplicate_send (wf : WF T self) : (relayFuel fuel T self o oz log).sent.Nodup :=
+  sent_nodup wf
 
 /-- **relay_meets_spec.**  For every well-formed configuration, every connectivity, origin, object zone, log flag,
     master and iteration order: what the model of `SyncRelayMessage` does satisfies the executable specification -
@@ -369,7 +318,7 @@ theorem net_no_discard (wf : NetWF T) (orig : Ep) (oz : Zone)
   · -- a global object is accessible to every zone
     apply run_induction (fun n => n.discarded = [])
     · intro n i h
-      rcases deliver_cases T oz n i with heq | ⟨msg, _, ⟨_, _, _, hd⟩ | ⟨hacc, _, _, _⟩⟩
+      rcases deliver_cases T oz n i with heq | ⟨msg, _, ⟨_, _, _, hd, _⟩ | ⟨hacc, _, _, _, _⟩⟩
       · rw [heq]; exact h
       · rw [hd]; exact h
       · exfalso
@@ -382,7 +331,7 @@ theorem net_no_discard (wf : NetWF T) (orig : Ep) (oz : Zone)
       · exact absurd h hg
       · exact h
     have := run_induction (T := T) (oz := oz) (AccInv T oz) (fun n i h => by
-      rcases deliver_cases T oz n i with heq | ⟨msg, hmem, ⟨_, hi, _, hd⟩ | ⟨hacc, _, _, _⟩⟩
+      rcases deliver_cases T oz n i with heq | ⟨msg, hmem, ⟨_, hi, _, hd, _⟩ | ⟨hacc, _, _, _, _⟩⟩
       · rw [heq]; exact h
       · obtain ⟨hto, hrest⟩ := h.inflight msg hmem
         obtain ⟨_, hfz⟩ := accept_of_accInv hrest
@@ -409,22 +358,174 @@ example : (run exT 2 (start exT 4 2) [0, 0, 0, 0, 0]).processed = [4, 5, 2, 3, 0
     (run exT 2 (start exT 4 2) [0, 0, 0, 0, 0]).inflight = [] := by decide
 example : exT.isGlobal 2 = true ∨ isChildOf exT 2 (exT.zoneOf 4) = true := by decide
 /-- the cluster-wide specification rejects a history with a duplicate, with an unentitled recipient, with a discard -/
-example : specNet exT [0, 1, 2, 3, 4, 5] 4 2 ⟨[], [4, 5, 2, 5], [], []⟩ = some .processed_twice := by decide
-example : specNet exT [0, 1, 2, 3, 4, 5] 2 1 ⟨[], [2, 3, 4], [], []⟩ = some .processed_not_entitled := by decide
-example : specNet exT [0, 1, 2, 3, 4, 5] 2 1 ⟨[], [2, 3], [], [⟨0, 2, none⟩]⟩ = some .discarded_message := by decide
+example : specNet exT [0, 1, 2, 3, 4, 5] 4 2 ⟨[], [4, 5, 2, 5], [], [], []⟩ = some .processed_twice := by decide
+example : specNet exT [0, 1, 2, 3, 4, 5] 2 1 ⟨[], [2, 3, 4], [], [], []⟩ = some .processed_not_entitled := by decide
+example : specNet exT [0, 1, 2, 3, 4, 5] 2 1 ⟨[], [2, 3], [], [], [⟨0, 2, none⟩]⟩ = some .discarded_message := by decide
 /-- an originator whose zone is NOT entitled (endpoint 4 of the lowest zone, object of the middle zone): the message
     goes up to an entitled zone and is discarded there (C13's rule) - why `net_no_discard` has its hypothesis -/
 example : (run exT 1 (start exT 4 1) [0]).discarded.length = 1 ∧ (run exT 1 (start exT 4 1) [0]).processed = [4] := by decide
 
+/-! ### The general no-duplicate / finiteness theorems (every forest, every delivery order)
+
+    Proved with the history invariant of `IcingaProofs/C11/Compass.lean` (`KInv`): all recipients of messages ever sent
+    are pairwise different and differ from the originator; every hop across a zone border leads away from the
+    originating zone; a zone is entered at most once. -/
+
+section General
+variable {T : Topo}
+
+/-- **no_duplicate** (GENERAL).  For every zone forest with detached global zones, at most two endpoints per zone and
+    symmetric static connectivity (`Cluster`), every originating endpoint, every object zone (ordinary or global,
+    entitled originator or not), every iteration order of the endpoint sets on every node and every delivery order:
+    no endpoint processes the event twice. -/
+theorem no_duplicate (cl : Cluster T) {orig : Ep} (hM : Member T orig) (oz : Zone) (sched : List Nat) :
+    (run T oz (start T orig oz) sched).processed.Nodup := by
+  obtain ⟨hn, ho, hp, _⟩ := history_distinct cl hM oz sched
+  rw [hp, List.nodup_cons]
+  rw [List.map_append, List.map_append, List.append_assoc] at hn ho
+  exact ⟨fun h => ho (List.mem_append_left _ h), (List.nodup_append.mp hn).1⟩
+
+/-- **finite** (GENERAL).  Under the same hypotheses, in every reachable state the messages ever put on the wire
+    (processed, discarded, still in flight) together with the originator number at most the endpoints: every
+    execution consumes at most `allEps.length - 1` messages, however it is scheduled - the event cannot circulate. -/
+theorem finite (cl : Cluster T) {orig : Ep} (hM : Member T orig) (allEps : List Ep)
+    (hall : ∀ s z e, e ∈ T.eps s z → e ∈ allEps) (oz : Zone) (sched : List Nat) :
+    (run T oz (start T orig oz) sched).processed.length + (run T oz (start T orig oz) sched).discarded.length +
+      (run T oz (start T orig oz) sched).inflight.length ≤ allEps.length := by
+  obtain ⟨hn, ho, hp, hm⟩ := history_distinct cl hM oz sched
+  generalize run T oz (start T orig oz) sched = n at hn ho hp hm ⊢
+  have hL : (orig :: (n.accepted ++ n.discarded ++ n.inflight).map (·.to)).Nodup := List.nodup_cons.mpr ⟨ho, hn⟩
+  have := length_le_of_nodup_subset _ allEps hL (by
+    intro x hx
+    rcases List.mem_cons.mp hx with rfl | hx
+    · exact hall x _ x (hM x)
+    · obtain ⟨m, hmm, rfl⟩ := List.mem_map.mp hx
+      exact hall m.to _ m.to (hm m hmm m.to))
+  rw [hp]
+  simp only [List.length_cons, List.length_map, List.length_append] at this ⊢
+  omega
+
+/-- **finite_and_no_duplicate** (GENERAL, supersedes `finite_and_no_duplicate_partial`).  The cluster-wide executable
+    specification holds in every reachable state: nobody processes the event twice, apart from the originator only
+    endpoints of entitled zones process it, nothing is discarded when the originator's zone is entitled, and the
+    messages ever sent number less than the endpoints.  `hdepth` (the zone walk of `Zone::IsChildOf` reaches every
+    ancestor: guaranteed for configurations that loaded, which have at most 32 levels) is only used to express
+    "below the originating zone" for objects of a global zone with the fuelled executable predicate. -/
+theorem finite_and_no_duplicate (cl : Cluster T) {orig : Ep} (hM : Member T orig) (allEps : List Ep)
+    (hall : ∀ s z e, e ∈ T.eps s z → e ∈ allEps) (hdepth : ∀ a b, Anc T a b → isChildOf T a b = true)
+    (oz : Zone) (sched : List Nat) :
+    specNet T allEps orig oz (run T oz (start T orig oz) sched) = none := by
+  have h1 := no_duplicate cl hM oz sched
+  have h2 := finite cl hM allEps hall oz sched
+  have h3 := (net_only_entitled cl.toNetWF orig oz sched).1
+  obtain ⟨_, ho, hp, _⟩ := history_distinct cl hM oz sched
+  have h4 : netEntitledB T (T.zoneOf orig) oz (T.zoneOf orig) = true →
+      (run T oz (start T orig oz) sched).discarded = [] := by
+    intro h
+    apply net_no_discard cl.toNetWF orig oz _ sched
+    unfold netEntitledB at h
+    by_cases hg : T.isGlobal oz = true
+    · exact Or.inl hg
+    · simp only [hg, Bool.false_eq_true, if_false] at h
+      exact Or.inr h
+  generalize run T oz (start T orig oz) sched = n at h1 h2 h3 h4 ho hp ⊢
+  have c1 : nodupB n.processed = true := (nodupB_iff _).mpr h1
+  have c2 : (n.processed.drop 1).all (fun e => netEntitledB T (T.zoneOf orig) oz (T.zoneOf e)) = true := by
+    rw [List.all_eq_true]
+    intro e he
+    have he' : e ∈ n.processed := List.mem_of_mem_drop he
+    rw [hp] at he
+    simp only [List.drop_succ_cons, List.drop_zero] at he
+    have hne : e ≠ orig := by
+      intro h; apply ho; rw [← h, List.map_append, List.map_append, List.append_assoc]
+      exact List.mem_append_left _ he
+    rcases h3 e he' with h | h
+    · exact absurd h hne
+    · unfold NetEntitled at h
+      unfold netEntitledB
+      by_cases hg : T.isGlobal oz = true
+      · simp only [hg, if_true] at h ⊢
+        exact hdepth _ _ h
+      · simp only [hg, Bool.false_eq_true, if_false] at h ⊢
+        exact h
+  have c3 : (netEntitledB T (T.zoneOf orig) oz (T.zoneOf orig) && !n.discarded.isEmpty) = false := by
+    by_cases h : netEntitledB T (T.zoneOf orig) oz (T.zoneOf orig) = true
+    · simp [h4 h]
+    · simp [h]
+  have c4 : ¬ (n.processed.length + n.discarded.length + n.inflight.length > allEps.length) := by omega
+  unfold specNet
+  simp only [c1, c2, c3, c4, Bool.not_true, Bool.false_eq_true, if_false]
+
+end General
+
+/-- a bounded rank gives the `hdepth` hypothesis of `finite_and_no_duplicate` (configurations that loaded have at
+    most 32 levels, zone.cpp:39-45) -/
+theorem hdepth_of_rank {T : Topo} {rank : Zone → Nat} (hr : ∀ z p, T.parent z = some p → rank p < rank z)
+    (hb : ∀ z, rank z ≤ maxDepth) : ∀ a b, Anc T a b → isChildOf T a b = true := by
+  have key : ∀ a b, Anc T a b → ∀ n, rank a ≤ n → b ∈ a :: allParents T n a := by
+    intro a b h
+    induction h with
+    | refl => intro n _; exact List.mem_cons_self
+    | @step a p b hp _ ih =>
+      intro n hn
+      have hlt := hr _ _ hp
+      cases n with
+      | zero => omega
+      | succ k =>
+        apply List.mem_cons_of_mem
+        unfold allParents
+        rw [hp]
+        exact ih k (by omega)
+  intro a b h
+  unfold isChildOf
+  exact (isChildOfFuel_iff T _ _ _).mpr (key a b h maxDepth (hb a))
+
+/-- the hypotheses are satisfiable: the example cluster is a `Cluster`, its endpoints are members, its depth is bounded;
+    a run on it serves all six endpoints (see the example after `net_no_discard`) -/
+theorem exT_cluster : Cluster exT :=
+  { exT_netwf with
+    mem_indep := fun _ _ _ _ h => h
+    eps_nodup := fun s z => (exT_wf s).eps_nodup z
+    two := by intro s z; simp only [exT]; split <;> simp
+    zones_nodup := by decide
+    conn_symm := by
+      intro a b
+      show (a != b) = (b != a)
+      by_cases h : a = b
+      · subst h; rfl
+      · have h' : ¬ b = a := fun e => h e.symm
+        rw [bne_iff_ne.mpr h, bne_iff_ne.mpr h']
+    acyclic := (exT_wf 0).acyclic }
+example : ∀ e, e < 6 → Member exT e := by
+  intro e he x
+  show e ∈ (if e / 2 < 3 then [2 * (e / 2), 2 * (e / 2) + 1] else [])
+  have h3 : e / 2 < 3 := by eomega
+  simp only [h3, if_true, List.mem_cons, List.not_mem_nil, or_false]
+  eomega
+example : ∀ a b, Anc exT a b → isChildOf exT a b = true :=
+  hdepth_of_rank (rank := fun z => if z = 1 then 1 else if z = 2 then 2 else 0)
+    (by intro z p h
+        simp only [exT] at h
+        split at h
+        · cases h; subst_vars; simp
+        · split at h
+          · cases h; subst_vars; simp
+          · cases h)
+    (by
+      intro z
+      simp only [maxDepth]
+      split
+      · omega
+      · split <;> omega)
+
 /-!
   ### The two composition statements
 
-  FULL STATEMENTS (not proved here; DESIGN.md Appendix A.4 sketches the "compass" invariant they need):
+  `finite_and_no_duplicate` is PROVED IN GENERAL above (`no_duplicate`, `finite`, `finite_and_no_duplicate`); the
+  enumerated `finite_and_no_duplicate_partial` below is kept as an independent cross-check of the same statement on
+  a concrete family (it also exercises `exploreAll_sound`).
 
-    finite_and_no_duplicate :
-      ∀ T (NetWF T) (parent a forest) (conn symmetric) (every zone has at most two endpoints, the same on every node)
-        orig oz sched, specNet T allEps orig oz (run T oz (start T orig oz) sched) = none
-      -- nobody processes the event twice, at most one message per endpoint is ever put on the wire
+  FULL STATEMENT still open:
 
     complete_when_connected :
       ∀ T … orig oz sched, (run …).inflight = [] → specComplete T allEps zones orig oz (run …) = true
